@@ -96,7 +96,9 @@ def run_version(args):
             st = i % 8 if i < 64 else rng.randrange(256)
             dec = (i // 8) % 4 if i < 64 else rng.choice((0, 1, 2, 3, rng.randrange(256)))
             bb = lambda: rng.choice((0, 0xFFFF, 0xFFFE, own, rng.randrange(65536), rng.randrange(65536)))   # noqa
-            cb = {"nwk": bb(), "ieee": rng.choice(([0] * 8, [255] * 8, [rng.randrange(256) for _ in range(8)], [rng.randrange(256) for _ in range(8)])),
+            # devices whose address prefix triggers the temporary manufacturer-code override (a background task of 180 s): several in a row
+            lumi = [rng.randrange(256) for _ in range(5)] + rng.choice(([0x8C, 0xCF, 0x04], [0x44, 0xEF, 0x54]))
+            cb = {"nwk": bb(), "ieee": rng.choice(([0] * 8, [255] * 8, [rng.randrange(256) for _ in range(8)], [rng.randrange(256) for _ in range(8)], lumi, lumi)),
                   "status": st, "decision": dec, "parent": bb()}
             got_p.clear(); got_j.clear()
             raised = await feed(encode_join(cb), ID_TCJOIN)
